@@ -152,6 +152,21 @@ def execute(aiu, events, T, fails=(), dur=0.0, *, form='direct', settle=None, en
                     obs.submits.append({'t': world.now, 'kind': kind, 'values': xs, 'ok_prefix': pre,
                                         'immediate': True})
                     buf.map(gen())
+                elif kind == 'map_reiter':
+                    xs, failpos = list(op[1]), op[2]
+
+                    class ReIterable:        # has __iter__ but is not an Iterator: iterated inline
+                        def __iter__(self, xs=xs, failpos=failpos):
+                            for i, x in enumerate(xs):
+                                if failpos is not None and i == failpos:
+                                    raise ProducerError(i)
+                                yield x
+                            if failpos is not None and failpos >= len(xs):
+                                raise ProducerError('end')
+                    pre = xs if failpos is None else xs[:failpos]
+                    obs.submits.append({'t': world.now, 'kind': kind, 'values': xs, 'ok_prefix': pre,
+                                        'immediate': True})
+                    buf.map(ReIterable())
                 elif kind == 'amap':
                     items, failpos = list(op[1]), op[2]
 
